@@ -171,7 +171,11 @@ def parse_checks(checks) -> Union[Dict[str, Any], None]:
             continue
 
         # Get base statistics
-        base_stats = {} if check.statistics is None else check.statistics
+        # copy: the options are added below and must not end up in the
+        # statistics of the check itself
+        base_stats = (
+            {} if check.statistics is None else dict(check.statistics)
+        )
 
         # Collect check options
         check_options = {
